@@ -101,18 +101,33 @@ Fixpoint first_diff (i : Z) (a b : list out) : Z :=
 Definition fill (tb : list (Z * config)) (x : (event * obs) * out) : option out :=
   match x with
   | ((Update _ _ _, OSkip), m) => Some m      (* unobserved: taken from the model, so never a difference *)
+  | ((InUse _ _, OSkip), m) => Some m         (* an annotation, nothing to observe *)
   | ((_, o), _) => resolve tb o
+  end.
+
+(* The RPC layer's part of the contract, which the updater model cannot know: what a restarted dastard
+   restores for a key is the value the RPC layer last put into effect (InUse), provided the save is current. *)
+Fixpoint expect_in_use (before evs : list event) (outs : list out) : list out :=
+  match evs, outs with
+  | e :: es, o :: os =>
+      (match e, o with
+       | Restart, Restored l =>
+           if saved_is_current before then Restored (overlay (in_use before []) l) else o
+       | _, _ => o
+       end) :: expect_in_use (before ++ [e]) es os
+  | _, _ => outs
   end.
 
 (* one run from state y0: ((code, first differing event), (final state, the model's outputs)) *)
 Definition run_verdict (tb : list (Z * config)) (y0 : sys) (h : list (event * obs))
   : (Z * Z) * (sys * list out) :=
   let evs := map fst h in
-  let '(y1, model) := run y0 evs in
+  let '(y1, model0) := run y0 evs in
+  let model := expect_in_use [] evs model0 in
   match map_opt (fill tb) (combine h model) with
   | Some impl =>
       let d := first_diff 0 impl model in
-      ((verdict_code (d =? -1) (C16_check (combine evs impl)), d), (y1, model))
+      ((verdict_code (d =? -1) (C16_check (v_config y0) (combine evs impl)), d), (y1, model))
   | None => ((1, -2), (y1, model))
   end.
 
@@ -150,6 +165,7 @@ Definition SA (l : list (string * value)) := (SendAll, OPub l).
 Definition Wt (b : bool) := (Wait, OWait b).
 Definition Sv (now : value) (faults : list bool) (snaps : list (list (name * Z))) (reads : list Z) :=
   (SaveTick now faults, OSave snaps reads).
+Definition IU (key : string) (v : value) := (InUse key v, OSkip).
 Definition Rs (l : list (string * value)) := (Restart, ORest l).
 Definition mkK (cfg : config) (d : list (name * Z)) (tb : list (Z * config)) (h : list (event * obs))
            (more : list (Z * list (event * obs))) : case :=
